@@ -10,6 +10,15 @@ COMMON_NOTE = ('Trusted base: z3 4.x/5.1 (python3-vt), the symx forking engine, 
                'reals), sizes beyond the stated bounds, GPU, complex dtypes. ')
 
 CHECKS = {
+ 'C06': dict(
+    text='Every operation PatternedTensor offers (about 150 table entries incl. in-place forms, scalar variants, reductions, structural operations, reshape/view targets) is executed on the z3-valued tensor model '
+         'for all well-typed operand patterns inside the bound and compared, cell by cell and for all element values, with the same torch operation applied to the independently denoted dense tensors; '
+         'the representation invariant (at most one physical element per virtual element) is asserted on every PatternedTensor the library constructs. Right level: pattern x default x value corner '
+         'combinations are far beyond hand-written cases; the solver quantifies values, the typed enumeration covers structure.',
+    note='Bounds: shapes up to rank 2 / numel 6 (quick), rank 3 / numel 8 (thorough); index types of depth 1; <=3 physical axes; single operations (no compositions). '
+         'Outside the claim: in-place operations on a receiver whose physical tensor is a stride-0 expansion (torch refuses such writes too), stack of tensors whose common default is nan, negative dim for dim_to_dense. '
+         'Known finding F6 (log_softmax with infinite default) is confined by its signature.',
+    technique='SMT equivalence of patterned vs dense execution (z3), representation-invariant monitor', design='5/C06'),
  'C07': dict(
     text='indices.einsum / mv / mm / log_viterbi_einsum_forward and the unmodified torch_semiring_einsum package are executed on the z3-valued tensor model for every '
          'well-typed combination of sparsity patterns inside the bound; per output cell the solver decides equality with the definitional semiring einsum of the '
